@@ -67,6 +67,16 @@ func runC07(c *Config, r *Report) {
 	}
 	copiersAlwaysCopy(ic, r, "R07.7")
 	pureLookups(ic, r, "R07.19")
+	// R07.21: = R01.34: a declared function returned by a script function reaches the host as a func value
+	{
+		sub := newReport("C01")
+		c01R34(ic, sub)
+		for _, o := range sub.Obls {
+			o.Rule = "R07.21"
+			r.add(o)
+		}
+		r.Errors = append(r.Errors, sub.Errors...)
+	}
 	// R07.20: = R04.13 on the generator of calls to compiled functions
 	{
 		sub := newReport("C04")
@@ -847,6 +857,7 @@ func zeroTableAgreement(ic *IC, r *Report, rule string) {
 
 func init() {
 	ruleText["R07.20"] = "= R04.13 on callBin: x, err := host.F() with err already declared assigns the existing err - the closure storing the results of a compiled call replaces a destination's slot by a new variable only under a test of node.redeclared"
+	ruleText["R07.21"] = "= R01.34 shared: a declared function returned or stored as a value is a function value (callable by the host through reflect), never the interpreter's *node"
 	ruleText["R07.19"] = "= R05.6 shared: the choice of the wrapper type handed to compiled code (getWrapper) and the method look-ups it rests on keep no state between calls - the wrapper depends on the interpreted type's own methods, not only on the host interface"
 	ruleText["R07.15"] = "= R05.8 shared (an interpreted struct handed to compiled code keeps its interpreted methods)"
 	ruleText["R07.16"] = "in a generator that consults the frame level of a node, every run-time closure addressing that node's slot (data[X.findex...]) takes the vector from getFrame(f, X.level): the destination of a result can live in an enclosing function's frame"
